@@ -97,7 +97,7 @@ func (e *CachedEnforcer) LoadPolicy() error {
 }
 
 func (e *CachedEnforcer) RemovePolicy(params ...interface{}) (bool, error) {
-	key, ok := e.getKey(params...)
+	key, ok := e.getKey(ruleParams(params)...)
 	if ok {
 		if err := e.cache.Delete(key); err != nil && err != cache.ErrNoSuchKey {
 			return false, err
@@ -144,6 +144,21 @@ func (e *CachedEnforcer) setCachedResult(key string, res bool, extra ...interfac
 
 func (e *CachedEnforcer) getKey(params ...interface{}) (string, bool) {
 	return GetCacheKey(params...)
+}
+
+// ruleParams spreads a rule passed as a single []string, the other calling convention that
+// the management API accepts for one rule, into one parameter per field.
+func ruleParams(params []interface{}) []interface{} {
+	if len(params) == 1 {
+		if rule, ok := params[0].([]string); ok {
+			spread := make([]interface{}, len(rule))
+			for i, field := range rule {
+				spread[i] = field
+			}
+			return spread
+		}
+	}
+	return params
 }
 
 // InvalidateCache deletes all the existing cached decisions.
